@@ -37,6 +37,7 @@ enum Op {
     RaiseLimit { to: usize },
     Payload { client: usize },
     Spawn { client: usize },
+    CrossResponse { at: usize, challenge_of: usize },
 }
 
 impl Model {
@@ -152,7 +153,7 @@ impl Property for C10 {
         "exploration"
     }
     fn rule(&self) -> String {
-        "A case = secure server with max_clients 1-4 (raised and lowered at run time in some cases), up to 8 client objects over 4 identities and 5 addresses (several tokens per identity, several clients per address, one token per client object), spawned at any time. Steps: lossy honest handshake steps, server ticks with lossy keep-alive delivery and clock steps up to beyond the timeout, client disconnects (delivered or lost), server.disconnect(id), genuine payloads, replays of any earlier client datagram from its own or another address, raising and lowering the limit (the bound on the count is only asserted in cases that never lower it, as the statement says; everything else is asserted always). Oracles after every step: clients_id pairwise distinct, client_addr pairwise distinct, connected_clients == |clients_id| <= max_clients; the outputs ClientConnected / ClientDisconnected alternate per id, a disconnect names the id and address of the open connect, none without one, a connect never happens while the server is full nor for an id or address already connected, its id / address / user data are those of the triggering client's token; a session is ended by a datagram only if that is its own client's unmodified disconnect packet; the set of ids in the table equals the set opened by the event stream; lookups by id return the authenticated session's address and user data; a genuine payload of a session surfaces under its id. Non-trivial: >= 2 sessions open or half-open at once and >= 1 refused, raced or replayed handshake. Distinct = hash of the decoded operation trace.".into()
+        "A case = secure server with max_clients 1-4 (raised and lowered at run time in some cases), up to 8 client objects over 4 identities and 5 addresses (several tokens per identity, several clients per address, one token per client object), spawned at any time. Steps: lossy honest handshake steps, server ticks with lossy keep-alive delivery and clock steps up to beyond the timeout, client disconnects (delivered or lost), server.disconnect(id), genuine payloads, replays of any earlier client datagram from its own or another address, responses from a half-open address sealed with one of its own tokens' keys but echoing the challenge issued for another id (must never connect; in half of the cases every token seals the same user data), raising and lowering the limit (the bound on the count is only asserted in cases that never lower it, as the statement says; everything else is asserted always). Oracles after every step: clients_id pairwise distinct, client_addr pairwise distinct, connected_clients == |clients_id| <= max_clients; the outputs ClientConnected / ClientDisconnected alternate per id, a disconnect names the id and address of the open connect, none without one, a connect never happens while the server is full nor for an id or address already connected, its id / address / user data are those of the triggering client's token; a session is ended by a datagram only if that is its own client's unmodified disconnect packet; the set of ids in the table equals the set opened by the event stream; lookups by id return the authenticated session's address and user data; a genuine payload of a session surfaces under its id. Non-trivial: >= 2 sessions open or half-open at once and >= 1 refused, raced or replayed handshake. Distinct = hash of the decoded operation trace.".into()
     }
     fn assumptions(&self) -> Vec<String> {
         vec!["one token per client object (re-using a token for a second session re-uses its keys; outside the statement)".into(), "lowering max_clients disconnects nobody (set_max_clients changes the limit only)".into()]
@@ -161,7 +162,7 @@ impl Property for C10 {
         PbtCfg { cases: tier.pick(300_000, 5_000_000), max_len: tier.pick(600, 2000), shrink_ms: 120_000 }
     }
     fn required_labels(&self) -> Vec<&'static str> {
-        vec!["two_open", "same_id_two_pending", "same_addr_two_tokens", "full_refused", "timeout_disconnect", "client_disconnect", "server_disconnect", "replay", "limit_raised", "limit_lowered", "payload_ok"]
+        vec!["two_open", "same_id_two_pending", "same_addr_two_tokens", "full_refused", "timeout_disconnect", "client_disconnect", "server_disconnect", "replay", "limit_raised", "limit_lowered", "payload_ok", "cross_response", "shared_user_data"]
     }
     fn run_choices(&self, ctx: &mut Ctx) -> Outcome {
         let mut nw = NetWorld::new(ctx.src.u16() as u64);
@@ -179,11 +180,16 @@ impl Property for C10 {
         let max_ops = ctx.tier.pick(120, 400);
         let mut ops = 0;
         let mut interesting = false;
+        // an application may seal the same user data into every token it mints
+        let shared_user_data = ctx.src.chance(50);
+        if shared_user_data {
+            ctx.label("shared_user_data");
+        }
         let spawn = |nw: &mut NetWorld, ctx: &mut Ctx| -> usize {
             let ident = ctx.src.below(4) as u64;
             let addr_i = ctx.src.below(5);
-            let t = nw.mint(&TokenSpec { client_id: 300 + ident, user: ident * 16 + nw.clients.len() as u64, expire_seconds: 600, timeout, addrs: vec![server_addr(0)], key: token_key, protocol: PROTO });
-            let user = ident * 16 + nw.clients.len() as u64;
+            let user = if shared_user_data { 7 } else { ident * 16 + nw.clients.len() as u64 };
+            let t = nw.mint(&TokenSpec { client_id: 300 + ident, user, expire_seconds: 600, timeout, addrs: vec![server_addr(0)], key: token_key, protocol: PROTO });
             nw.add_client(t, client_addr(addr_i), user)
         };
         for _ in 0..2 {
@@ -192,7 +198,7 @@ impl Property for C10 {
         while !ctx.src.exhausted() && ops < max_ops {
             ops += 1;
             let n = nw.clients.len();
-            let op = match ctx.src.weighted(&[30, 10, 4, 3, 8, 2, 6, 6]) {
+            let op = match ctx.src.weighted(&[30, 10, 4, 3, 8, 2, 6, 6, 4]) {
                 0 => {
                     let c = ctx.src.below(n);
                     let lost_up = ctx.src.chance(30);
@@ -380,6 +386,41 @@ impl Property for C10 {
                         }
                     }
                     Op::Payload { client: c }
+                }
+                8 => {
+                    // a half-open address answers with the key of one of its own tokens but echoes a challenge issued for another id
+                    // (two tokens used from one address, or a challenge seen on the wire)
+                    let pend = nw.servers[0].server.verif_pending_addrs();
+                    if pend.is_empty() {
+                        continue;
+                    }
+                    let pa = pend[ctx.src.below(pend.len())];
+                    let holders: Vec<usize> = (0..n).filter(|&i| nw.clients[i].addr == pa).collect();
+                    if holders.is_empty() {
+                        continue;
+                    }
+                    let p = holders[ctx.src.below(holders.len())];
+                    let chals: Vec<(usize, u64, [u8; 300])> = nw
+                        .pool
+                        .iter()
+                        .filter(|d| d.kind == 2)
+                        .filter_map(|d| (0..n).find_map(|c| peek_challenge(&d.bytes, PROTO, &nw.clients[c].token.server_to_client_key).map(|(s, t)| (c, s, t))))
+                        .filter(|(c, _, _)| nw.clients[*c].client_id != nw.clients[p].client_id)
+                        .collect();
+                    if chals.is_empty() {
+                        continue;
+                    }
+                    let (c, seq, data) = chals[ctx.src.below(chals.len())];
+                    let b = seal(&renetcode::verif::Packet::Response { token_sequence: seq, token_data: data }, PROTO, 9000 + ops as u64, &nw.clients[p].token.client_to_server_key);
+                    ctx.label("cross_response");
+                    interesting = true;
+                    if let SrvOut::Connected { client_id, addr, .. } = nw.server_recv(0, pa, &b) {
+                        return Err(Fail::new(
+                            "connected_by_foreign_challenge",
+                            format!("id {client_id} reported connected at {addr} by a response sealed with the key of client object {p} (id {}) that echoes the challenge issued for client object {c} (id {})", nw.clients[p].client_id, nw.clients[c].client_id),
+                        ));
+                    }
+                    Op::CrossResponse { at: p, challenge_of: c }
                 }
                 _ => {
                     if n < 8 {
